@@ -330,8 +330,10 @@ def run_rot(cls, qs, imps, shape, antipodal, tag):
         fail(f"{pre}:cover", f"{cls}.unique(antipodal={antipodal}) loses or invents a rotation", rep); return
     if olabs != nub(labs):
         fail(f"{pre}:order", f"{cls}.unique(antipodal={antipodal}) does not keep the order of first appearance", rep)
+    # (Rotation.__getitem__ re-normalises, so the returned quaternion may differ from the stored one by an ulp)
     ok = len(idx) == len(oq) and all(0 <= int(i) < len(fq) for i in idx) and \
-        all(fq[int(i)] == oq[k] and fi[int(i)] == oi[k] for k, i in enumerate(idx))
+        all(max(abs(x - y) for x, y in zip(fq[int(i)], oq[k])) <= 1e-14 and fi[int(i)] == oi[k]
+            for k, i in enumerate(idx))
     if not ok:
         fail(f"{pre}:idx", f"{cls}.unique(antipodal={antipodal}): flat[idx[k]] is not the k-th returned rotation", rep)
     elif list(idx) != sorted(idx) or any(labs.index(labs[int(i)]) != int(i) for i in idx):
@@ -449,7 +451,17 @@ def run_miller_sym(name, ph, xyz, shape, tag, record=True):
         fail(f"{pre}:spurious", "Miller.unique(use_symmetry=True) returns a vector not equivalent to any input", rep)
         return
     if len(set(ocls)) != len(ocls):
-        fail(f"{pre}:distinct", "Miller.unique(use_symmetry=True) returns two symmetrically equivalent vectors", rep)
+        # explained by the double rounding (vector rounded to 10 decimals, images rounded again)?
+        def okey(v):
+            o = np.einsum("gij,j->gi", mats, np.round(np.asarray(v), 10)).round(10) + 0.0
+            return o[np.lexsort(o.T)]
+        why = ":rounding-threshold"
+        for a in range(len(out)):
+            for b in range(a + 1, len(out)):
+                if ocls[a] == ocls[b] and np.max(np.abs(okey(out[a]) - okey(out[b]))) > 2.5e-10:
+                    why = ""
+        fail(f"{pre}:distinct{why}", "Miller.unique(use_symmetry=True) returns two symmetrically equivalent vectors"
+             + (" (their 10-decimal rounded orbits differ by one rounding step)" if why else ""), rep)
         return
     if set(ocls) != set(fcls):
         fail(f"{pre}:cover", "Miller.unique(use_symmetry=True) loses an orbit", rep)
@@ -475,94 +487,145 @@ def run_miller_sym(name, ph, xyz, shape, tag, record=True):
 
 
 # =================================================================== run
-# ---- the witnesses of the _refuted theorems, replayed on the implementation
-w = run_base("Vector3d", np.array([[3, 0, 0], [1, 0, 0], [3, 0, 0], [2, 0, 0]], float), (4,), "witness")
-witness["base_order"] = None if w is None else {"out": w[1], "idx": [int(i) for i in w[2]], "inv": [int(i) for i in w[3]]}
-w = run_base("Vector3d", np.array([[0, 0, 0], [5, 0, 0]], float), (2,), "witness")
-witness["base_zero"] = None if w is None else {"out": w[1], "idx": [int(i) for i in w[2]], "inv": [int(i) for i in w[3]]}
-run_miller_sym("-1", phases()[1][1], [[1, 0, 0], [0, 1, 0], [-1, 0, 0], [0, 0, 1]], (4,), "witness")
-witness["miller_sym"] = {"out": cases[-1]["out"], "idx": cases[-1]["idx"]}
-for cls in (Rotation, Orientation, Misorientation):
-    e = cls.empty()
-    for ri, rv in ((True, False), (False, True), (True, True)):
-        res = e.unique(return_index=ri, return_inverse=rv)
+def replay_one(rep):
+    """re-run one stored failing input (the `replay` object of a failure)"""
+    if rep.get("empty"):
+        cls = {"Rotation": Rotation, "Orientation": Orientation, "Misorientation": Misorientation}[rep["cls"]]
+        res = cls.empty().unique(return_index=rep["return_index"], return_inverse=rep["return_inverse"])
         ar = len(res) if isinstance(res, tuple) else 1
-        st("rot/empty")
-        if ar != 1 + int(ri) + int(rv):
-            fail(f"unique:{cls.__name__}:empty:arity",
-                 f"{cls.__name__}.empty().unique(return_index={ri}, return_inverse={rv}) returns {ar} value(s)",
-                 {"cls": cls.__name__, "empty": True, "return_index": ri, "return_inverse": rv})
-    if e.unique().size != 0:
-        fail(f"unique:{cls.__name__}:empty:size", "unique of an empty object is not empty", {"cls": cls.__name__})
-witness["rot_empty_arity"] = {c.__name__: (lambda r: len(r) if isinstance(r, tuple) else 1)(
-    c.empty().unique(return_index=True, return_inverse=True)) for c in (Rotation,)}
-
-# ---- base class
-nb = max(N * 2 // 5, 20)
-for k in range(nb):
-    cls = R.choice(["Vector3d", "Vector3d", "Quaternion", "Miller"])
-    dim = 4 if cls == "Quaternion" else 3
-    n = pick_size()
-    rows, kinds = gen_rows(dim, n)
-    arr, shape = shaped(rows, n, dim)
-    tag = f"base/{cls}/ndim={len(shape)}"
-    st(tag)
-    for kd in set(kinds):
-        st(f"base/kind={kd}")
-    run_base(cls, arr, shape, tag, miller_phase=R.choice(phases())[1] if cls == "Miller" else None)
-
-# ---- rotations
-nr = max(N * 2 // 5, 20)
-for k in range(nr):
-    set_backend(k % 4 != 0)
-    cls = R.choice(["Rotation", "Rotation", "Orientation", "Misorientation"])
-    n = pick_size()
-    qs, imps, kinds = gen_quats(n)
-    shape = R.choice(SHAPES[n])
-    antipodal = R.random() < 0.6
-    tag = f"rot/{cls}/antipodal={antipodal}/ndim={len(shape)}"
-    st(tag)
-    for kd in set(kinds):
-        st(f"rot/kind={kd}")
-    run_rot(cls, qs, imps, shape, antipodal, tag)
-set_backend(True)
-
-# ---- Miller with symmetry
-nm = max(N // 8, 10)
-for k in range(nm):
-    set_backend(k % 3 != 0)
-    name, ph = R.choice(phases())
-    n = R.choice([2, 3, 4, 6, 8, 9, 12])
-    xyz, kinds = gen_miller(n, ph)
-    shape = R.choice(SHAPES[n])
-    tag = f"miller-sym/{name}/ndim={len(shape)}"
-    st(tag)
-    for kd in set(kinds):
-        st(f"miller-sym/kind={kd}")
-    run_miller_sym(name, ph, xyz, shape, tag)
-set_backend(True)
-
-# ---- assumptions tested differentially: np.unique and np.round
-for k in range(max(N // 8, 10)):
-    n = R.choice([1, 2, 5, 9, 14])
-    w_ = R.choice([1, 2, 3, 5])
-    vals = [R.choice([0.0, -0.0, 1.0, -1.0, 0.5, 2.0, 1e-10, -1e-10]) for _ in range(4)] + [R.gauss(0, 1)]
-    rows = [[R.choice(vals) for _ in range(w_)] for _ in range(n)]
-    a = np.array(rows, dtype=float)
-    _, idx, inv = np.unique(a, axis=0, return_index=True, return_inverse=True)
-    cases.append({"k": "npu", "rows": rows, "idx": [int(i) for i in idx], "inv": [int(i) for i in np.ravel(inv)]})
-    st("np.unique")
-xs = []
-for k in range(max(N // 2, 60)):
-    c = R.random()
-    if c < 0.3:
-        xs.append(R.gauss(0, 1) * 10 ** R.randint(-12, 2))
-    elif c < 0.7:
-        xs.append(R.choice(GRID) + R.choice([0, 1, -1, 2, 3]) * 1e-10 + R.choice([5e-11, -5e-11, 4.9e-11, 5.1e-11, 0, 1e-13]))
+        if ar != 1 + int(rep["return_index"]) + int(rep["return_inverse"]):
+            fail(f"unique:{rep['cls']}:empty:arity", f"returns {ar} value(s)", rep)
+    elif rep.get("use_symmetry"):
+        ph = dict(phases())[rep["point_group"]]
+        run_miller_sym(rep["point_group"], ph, rep["xyz"], tuple(rep["shape"]), "replay")
+    elif "q" in rep:
+        q = np.array(rep["q"], float)
+        run_rot(rep["cls"], q.reshape(-1, 4).tolist(), np.array(rep["improper"]).reshape(-1).tolist(),
+                tuple(rep["shape"]), rep["antipodal"], "replay")
     else:
-        xs.append(R.choice([0.25, 0.36, 0.01, 0.49, 0.0625]) + R.choice([5e-13, -5e-13, 4.9e-13, 1.5e-12, 0]))
-xa = np.array(xs)
-cases.append({"k": "round", "x": xs, "r10": np.round(xa, 10).tolist(), "r12": np.round(xa, 12).tolist()})
-st("np.round")
+        run_base(rep["cls"], np.array(rep["data"], float), tuple(rep["shape"]), "replay",
+                 miller_phase=phases()[0][1] if rep["cls"] == "Miller" else None)
 
-emit({"cases": cases, "fails": fails, "strata": strata, "witness": witness})
+
+if "replay" in P:
+    replay_one(P["replay"])
+    emit({"cases": cases, "fails": fails, "strata": strata, "witness": {}})
+else:
+    # ---- the witnesses of the _refuted theorems, replayed on the implementation
+    w = run_base("Vector3d", np.array([[3, 0, 0], [1, 0, 0], [3, 0, 0], [2, 0, 0]], float), (4,), "witness")
+    witness["base_order"] = None if w is None else {"out": w[1], "idx": [int(i) for i in w[2]], "inv": [int(i) for i in w[3]]}
+    w = run_base("Vector3d", np.array([[0, 0, 0], [5, 0, 0]], float), (2,), "witness")
+    witness["base_zero"] = None if w is None else {"out": w[1], "idx": [int(i) for i in w[2]], "inv": [int(i) for i in w[3]]}
+    run_miller_sym("-1", phases()[1][1], [[1, 0, 0], [0, 1, 0], [-1, 0, 0], [0, 0, 1]], (4,), "witness")
+    witness["miller_sym"] = {"out": cases[-1]["out"], "idx": cases[-1]["idx"]}
+    for cls in (Rotation, Orientation, Misorientation):
+        e = cls.empty()
+        for ri, rv in ((True, False), (False, True), (True, True)):
+            res = e.unique(return_index=ri, return_inverse=rv)
+            ar = len(res) if isinstance(res, tuple) else 1
+            st("rot/empty")
+            if ar != 1 + int(ri) + int(rv):
+                fail(f"unique:{cls.__name__}:empty:arity",
+                     f"{cls.__name__}.empty().unique(return_index={ri}, return_inverse={rv}) returns {ar} value(s)",
+                     {"cls": cls.__name__, "empty": True, "return_index": ri, "return_inverse": rv})
+        if e.unique().size != 0:
+            fail(f"unique:{cls.__name__}:empty:size", "unique of an empty object is not empty", {"cls": cls.__name__})
+    witness["rot_empty_arity"] = {c.__name__: (lambda r: len(r) if isinstance(r, tuple) else 1)(
+        c.empty().unique(return_index=True, return_inverse=True)) for c in (Rotation,)}
+
+    # ---- base class
+    nb = max(N * 2 // 5, 20)
+    for k in range(nb):
+        cls = R.choice(["Vector3d", "Vector3d", "Quaternion", "Miller"])
+        dim = 4 if cls == "Quaternion" else 3
+        n = pick_size()
+        rows, kinds = gen_rows(dim, n)
+        arr, shape = shaped(rows, n, dim)
+        tag = f"base/{cls}/ndim={len(shape)}"
+        st(tag)
+        for kd in set(kinds):
+            st(f"base/kind={kd}")
+        run_base(cls, arr, shape, tag, miller_phase=R.choice(phases())[1] if cls == "Miller" else None)
+
+    # ---- rotations
+    nr = max(N * 2 // 5, 20)
+    for k in range(nr):
+        set_backend(k % 4 != 0)
+        cls = R.choice(["Rotation", "Rotation", "Orientation", "Misorientation"])
+        n = pick_size()
+        qs, imps, kinds = gen_quats(n)
+        shape = R.choice(SHAPES[n])
+        antipodal = R.random() < 0.6
+        tag = f"rot/{cls}/antipodal={antipodal}/ndim={len(shape)}"
+        st(tag)
+        for kd in set(kinds):
+            st(f"rot/kind={kd}")
+        run_rot(cls, qs, imps, shape, antipodal, tag)
+    set_backend(True)
+
+    # ---- Miller with symmetry
+    nm = max(N // 8, 10)
+    for k in range(nm):
+        set_backend(k % 3 != 0)
+        name, ph = R.choice(phases())
+        n = R.choice([2, 3, 4, 6, 8, 9, 12])
+        xyz, kinds = gen_miller(n, ph)
+        shape = R.choice(SHAPES[n])
+        tag = f"miller-sym/{name}/ndim={len(shape)}"
+        st(tag)
+        for kd in set(kinds):
+            st(f"miller-sym/kind={kd}")
+        run_miller_sym(name, ph, xyz, shape, tag)
+    set_backend(True)
+
+    # ---- corpus (stored regression inputs) first
+    for rep in P.get("corpus", []):
+        st("corpus")
+        replay_one(rep)
+
+    # ---- bounded-exhaustive: every list up to length L over a small alphabet
+    import itertools
+    L = P.get("exhaustive", 3)
+    VA = [[0.0, 0.0, 0.0], [1.0, 0.3, -2.0], [-1.0, -0.3, 2.0], [1.0 + 3e-11, 0.3, -2.0],
+          [1.0 + 1e-10, 0.3, -2.0], [0.5, 0.0, 0.0]]
+    h = (0.5, 0.5, 0.5, 0.5)
+    QA = [(h, False), (tuple(-x for x in h), False), (h, True), ((0.6, 0.8, 0.0, 0.0), False),
+          ((0.5 + 1e-13, 0.5, 0.5, 0.5), False), ((0.5 + 1e-11, 0.5, 0.5, 0.5), False)]
+    for n in range(1, L + 1):
+        for tup in itertools.product(VA, repeat=n):
+            st(f"exhaustive/base/len={n}")
+            run_base("Vector3d", np.array(tup, float), (n,), "exhaustive/base")
+        for tup in itertools.product(QA, repeat=n):
+            for ap in (True, False):
+                st(f"exhaustive/rot/len={n}")
+                run_rot("Rotation", [list(t[0]) for t in tup], [t[1] for t in tup], (n,), ap, "exhaustive/rot")
+    MA = [[1.0, 0.0, 0.0], [0.0, 1.0, 0.0], [-1.0, 0.0, 0.0], [1.0, 1.0, 0.0], [0.0, 0.0, 0.0]]
+    for n in range(1, min(L, 3) + 1):
+        for tup in itertools.product(MA, repeat=n):
+            st(f"exhaustive/miller-sym/len={n}")
+            run_miller_sym("4/mmm", dict(phases())["4/mmm"], [list(t) for t in tup], (n,), "exhaustive/miller-sym")
+
+    # ---- assumptions tested differentially: np.unique and np.round
+    for k in range(max(N // 8, 10)):
+        n = R.choice([1, 2, 5, 9, 14])
+        w_ = R.choice([1, 2, 3, 5])
+        vals = [R.choice([0.0, -0.0, 1.0, -1.0, 0.5, 2.0, 1e-10, -1e-10]) for _ in range(4)] + [R.gauss(0, 1)]
+        rows = [[R.choice(vals) for _ in range(w_)] for _ in range(n)]
+        a = np.array(rows, dtype=float)
+        _, idx, inv = np.unique(a, axis=0, return_index=True, return_inverse=True)
+        cases.append({"k": "npu", "rows": rows, "idx": [int(i) for i in idx], "inv": [int(i) for i in np.ravel(inv)]})
+        st("np.unique")
+    xs = []
+    for k in range(max(N // 2, 60)):
+        c = R.random()
+        if c < 0.3:
+            xs.append(R.gauss(0, 1) * 10 ** R.randint(-12, 2))
+        elif c < 0.7:
+            xs.append(R.choice(GRID) + R.choice([0, 1, -1, 2, 3]) * 1e-10 + R.choice([5e-11, -5e-11, 4.9e-11, 5.1e-11, 0, 1e-13]))
+        else:
+            xs.append(R.choice([0.25, 0.36, 0.01, 0.49, 0.0625]) + R.choice([5e-13, -5e-13, 4.9e-13, 1.5e-12, 0]))
+    xa = np.array(xs)
+    cases.append({"k": "round", "x": xs, "r10": np.round(xa, 10).tolist(), "r12": np.round(xa, 12).tolist()})
+    st("np.round")
+
+    emit({"cases": cases, "fails": fails, "strata": strata, "witness": witness})
